@@ -793,8 +793,7 @@ def main(out_path):
     # ssh_audit.post_process_findings: marker names and the terrapin text
     pp = func_node(t_main, 'post_process_findings')
     strs = sorted({n.value for n in ast.walk(pp) if isinstance(n, ast.Constant) and isinstance(n.value, str)})
-    for s in ('kex-strict-c-v00@openssh.com', 'kex-strict-s-v00@openssh.com', 'chacha20-poly1305', '-cbc', '-cbc@openssh.org', '-cbc@ssh.com', 'rijndael-cbc@lysator.liu.se', 'des-cbc-ssh1', '-etm@openssh.com'):
-        need(s in strs, 'post_process_findings lost the literal %r' % s)
+    PP_LITERALS = ('kex-strict-c-v00@openssh.com', 'kex-strict-s-v00@openssh.com', 'chacha20-poly1305', '-cbc', '-cbc@openssh.org', '-cbc@ssh.com', 'rijndael-cbc@lysator.liu.se', 'des-cbc-ssh1', '-etm@openssh.com')
     tw = [s for s in strs if s.startswith('vulnerable to the Terrapin attack')]
     need(len(tw) == 1, 'terrapin warning text')
     w('Definition terrapin_warning : string := ' + cstr(tw[0]) + '.')
@@ -817,6 +816,8 @@ def main(out_path):
             soft_failures.append({'what': what, 'properties': props, 'reason': str(e)[:300]})
 
     def ex_markers():
+        for s_ in PP_LITERALS:      # (soft: a rewrite of these literals concerns the Terrapin rule only)
+            need(s_ in strs, 'post_process_findings lost the literal %r' % s_)
         mk = sorted(x for x in strs if x.startswith('kex-strict-') and x.endswith('@openssh.com'))
         need(len(mk) == 2, 'post_process_findings marker names: %r' % (mk,))
         w('Definition src_pp_markers : list string := ' + cstrs(mk) + '.')
